@@ -67,6 +67,7 @@ inline bool in_subtree(long node, long root) { return node <= root && node > roo
 uint64_t sched_state_hash();
 extern uint64_t sched_hash_last;
 extern long bump_next[3];
+extern std::vector<std::pair<long, long>> lsub_res;
 
 // identity of the five factorization locks: entries of lu_locks[] in the pthread build, the name objects of the
 // `#pragma omp critical (NAME)` sections in the OpenMP build
@@ -101,7 +102,7 @@ void on_init(long n, const void *ptr, long c) {
     handed.assign(n + 1, 0); upd_ranges.assign(n, {}); upd_log.clear(); released_total = 0; extents_checked = false;
     ts.clear();
     panels_total = shared->tasks_remain; handed_total = 0; max_open_nsuper = -1; thread_exits = 0; mem_error_seen = false;
-    first_zero_col = -1; bump_next[0] = bump_next[1] = bump_next[2] = -1;
+    first_zero_col = -1; bump_next[0] = bump_next[1] = bump_next[2] = -1; lsub_res.assign((size_t)n, {-1, 0});
     // subtree sizes (etree is postordered: children before parents)
     subtree.assign(n + 1, 1);
     const int_t *et = options->etree;
@@ -174,6 +175,7 @@ uint64_t sched_hash_last = 0;
 // a bump pointer hands out consecutive ranges: every request starts where the previous one ended.  A start value that was read
 // outside the critical section (stale) shows as a gap or an overlap even when the update itself is inside the lock.
 long bump_next[3] = {-1, -1, -1};
+std::vector<std::pair<long, long>> lsub_res;   // per column: L-subscript reservation made for it (start, words)
 void bump_check(int which, const char *what, long prev, long num) {
     if (bump_next[which] >= 0 && prev != bump_next[which])
         viol("C05", "bump_pointer_not_continuous", fmt("%s storage: request starts at %ld, the previous request ended at %ld (%s)", what, prev, bump_next[which], prev < bump_next[which] ? "ranges overlap" : "gap"));
@@ -360,6 +362,7 @@ void on_event(int task, int kind, long pnum, long a, long b, long c, const void 
         } else if (mt == LSUB) {
             check_lock(task, LLOCK, "L-subscript bump pointer");
             bump_check(0, "L-subscript", prev, num);
+            if (jcol >= 0 && jcol < N) { if ((long)lsub_res.size() < N) lsub_res.assign((size_t)N, {-1, 0}); lsub_res[(size_t)jcol] = {prev, num}; }
             if (prev + num > Glu->nzlmax) viol("C05", "lsub_overrun", fmt("lsub needs %ld, holds %ld", prev + num, (long)Glu->nzlmax));
         } else {
             check_lock(task, ULOCK, "U bump pointer");
@@ -379,6 +382,14 @@ void on_event(int task, int kind, long pnum, long a, long b, long c, const void 
     }
     case SLU_EV_PIVOT: {
         long j = a;
+        // I9: the first column of a supernode reserved room for both copies of the supernode's row list (the list itself and the copy that
+        // pruning permutes), and the list starts at the reserved position
+        if (c == 0 && j < (long)lsub_res.size() && lsub_res[(size_t)j].first >= 0) {
+            long len = (long)Glu->xlsub_end[j] - (long)Glu->xlsub[j];
+            if ((long)Glu->xlsub[j] != lsub_res[(size_t)j].first || 2 * len > lsub_res[(size_t)j].second)
+                viol("C05", "lsub_reservation_too_small", fmt("supernode starting at column %ld: row list of %ld entries at lsub[%ld], reserved %ld words at %ld (both copies need %ld)", j, len, (long)Glu->xlsub[j], lsub_res[(size_t)j].second, lsub_res[(size_t)j].first, 2 * len));
+            probes["lsub_reservations_checked"]++;
+        }
         // I8 (see SNODE_RELEASE): columns of the caller's own panel that are taken or pivoted but not yet released still carry their flag
         if (me.panel >= 0) for (long k = me.panel; k < me.panel + me.w && k < N; ++k)
             if (col_state[k] != C_RELEASED && col_owner[k] == task && shared->spin_locks[k] == 0) { viol("C03", "busy_flag_cleared_before_release", fmt("column %ld of panel %ld is not released but its flag is down (seen when column %ld is pivoted)", k, me.panel, j)); break; }
